@@ -1670,18 +1670,21 @@ func c08RuleExecutor(p *Program, r *Reporter, e *c08Exec, sorts map[int64]string
 	for _, k := range ks {
 		name := sorts[k]
 		opaque := false
-		rank := func(v ssa.Value) int {
+		// concrete model for P-truncate: 0 < Limit < len(res.Blobs), with wide gaps so
+		// that comparisons against small literals come out the same for any such world
+		const modelLimit, modelLen = int64(1) << 20, int64(1) << 21
+		model := func(v ssa.Value) (int64, bool) {
 			v = originValue(v)
-			if n, ok := ConstInt(v); ok && n == 0 {
-				return 0
+			if n, ok := ConstInt(v); ok && n >= 0 && n < 1<<10 {
+				return n, true
 			}
 			if c08IsQueryField(v, "SearchQuery", "Limit") {
-				return 1
+				return modelLimit, true
 			}
 			if c08IsLenOfBlobs(v) {
-				return 2
+				return modelLen, true
 			}
-			return -1
+			return 0, false
 		}
 		mkAssume := func(withLimit bool) func(cond ssa.Value) (bool, bool) {
 			return func(cond ssa.Value) (bool, bool) {
@@ -1718,8 +1721,10 @@ func c08RuleExecutor(p *Program, r *Reporter, e *c08Exec, sorts map[int64]string
 						}
 					}
 					if withLimit {
-						if rx, ry := rank(bo.X), rank(bo.Y); rx >= 0 && ry >= 0 && rx != ry {
-							if res, ok := c08Cmp(bo.Op, int64(rx), int64(ry)); ok {
+						mx, okx := model(bo.X)
+						my, oky := model(bo.Y)
+						if okx && oky && (mx >= modelLimit || my >= modelLimit) {
+							if res, ok := c08Cmp(bo.Op, mx, my); ok {
 								return true, res != neg
 							}
 						}
